@@ -354,6 +354,7 @@ pub fn c08(args: &Args, rep: &mut Report) {
         c.reset_run();
     });
     rayon_sampling(args, rep);
+    miri_pass(args, rep, "C08");
 }
 
 /// Real rayon pools (sampling of OS schedules, labelled so): this is what exercises RayonJoin itself.
@@ -586,6 +587,7 @@ pub fn c18(args: &Args, rep: &mut Report) {
         rec(vec![], 0, 2, best, &run_scripted, rep);
     }
     static_scan(rep);
+    miri_pass(args, rep, "C18");
     // (c) sampling: 16 real threads as the very first calls of fresh processes
     let runs = if t { 200 } else { 20 };
     for i in 0..runs {
@@ -666,4 +668,49 @@ fn static_scan(rep: &mut Report) {
     found.sort();
     rep.add("shared_mutable_locations_listed", found.len() as u64);
     rep.extra.insert("shared_mutable_locations".into(), json!(found));
+}
+
+/// Free-running race pass on the Rust side (thorough tier): engines/miripass under miri's
+/// data-race detector, a few scheduler seeds. Sampling of schedules, labelled so; the portable
+/// path only (miri does not execute SIMD intrinsics or assembly).
+pub fn miri_pass(args: &Args, rep: &mut Report, prop: &str) {
+    if !args.thorough() {
+        return;
+    }
+    let dir = concat!(env!("CARGO_MANIFEST_DIR"), "/../miripass");
+    for seed in 1..=3u32 {
+        let out = std::process::Command::new("cargo")
+            .args(["+nightly", "miri", "run", "--offline"])
+            .current_dir(dir)
+            .env("RUSTFLAGS", "--cfg blake3_team_blake3_verif")
+            .env("MIRIFLAGS", format!("-Zmiri-disable-isolation -Zmiri-seed={}", seed))
+            .env("CARGO_TARGET_DIR", "/verif/target/miripass")
+            .env("CARGO_NET_OFFLINE", "true")
+            .output();
+        let out = match out {
+            Ok(o) => o,
+            Err(e) => {
+                rep.cap(&format!("miri pass not run: cargo +nightly miri could not be started ({})", e));
+                return;
+            }
+        };
+        let text = format!("{}{}", String::from_utf8_lossy(&out.stdout), String::from_utf8_lossy(&out.stderr));
+        if text.contains("MIRI-PASS-OK") && out.status.success() {
+            rep.inc("evaluations");
+            rep.inc("miri_runs_sampled");
+            continue;
+        }
+        if text.contains("Undefined Behavior") || text.contains("panicked at") {
+            let line = text.lines().find(|l| l.contains("Undefined Behavior") || l.contains("panicked at")).unwrap_or("").trim().to_string();
+            let site = text.lines().find(|l| l.trim_start().starts_with("-->") && l.contains("/repo/")).unwrap_or("").trim().to_string();
+            let kind = if line.contains("Data race") { "data-race" } else if line.contains("Undefined Behavior") { "undefined-behaviour" } else { "mismatch" };
+            let file = site.rsplit('/').next().unwrap_or("").split(':').next().unwrap_or("").to_string();
+            let key = format!("rust:free-running:miri:{}:{}", kind, file);
+            record(&key, format!("free-running threads under miri (seed {}): {} {}", seed, line, site), json!({"property": prop, "engine": "sched/miri", "subject": "miri", "seed": seed, "check": key}));
+            return;
+        }
+        // anything else (toolchain or sysroot trouble) is not a verdict
+        rep.cap(&format!("miri pass not completed: {}", text.lines().rev().find(|l| !l.trim().is_empty()).unwrap_or("").chars().take(160).collect::<String>()));
+        return;
+    }
 }
